@@ -19,12 +19,13 @@
  3. Binding self-tests: a corrupted expected state must be reported; a harness-side mutant object
     (sendline adding the separator twice / a log that is written after encoding) must be reported.
 """
-import codecs, copy, json, os, random, sys, time, traceback
+import asyncio, codecs, copy, json, os, random, sys, time, traceback
 from multiprocessing import Pool
 from multiprocessing.pool import ThreadPool
 import pexpect
 from .. import tlc, evidence, common, stategraph
-from ..sendlog_world import (Rig, Machinery, payload, wire, api, api_type, CONTROL_TABLE, LETTERS, PUNCT, WIRE, ESCAPE)
+from ..sendlog_world import (Rig, Machinery, payload, wire, api, api_type, CONTROL_TABLE, LETTERS, PUNCT, WIRE, ESCAPE, BIG_N,
+                             STALL_TIMEOUT, NEVER)
 
 sys.setrecursionlimit(100000)
 INVS = ['PeerGotExactly', 'ReturnValue', 'NoSpuriousFailure', 'FailedSendPrefix', 'LogSendExact', 'FailedSendLogged', 'LogReadExact',
@@ -37,11 +38,26 @@ NEEDED = {
     'fd': {'Send', 'SendLine', 'Write', 'WriteLines', 'ReadDelivered'},
     'socket': {'Send', 'SendLine', 'Write', 'WriteLines', 'ReadDelivered'},
 }
+NEEDED_LIFE = {
+    'pty': {'Send', 'SendLine', 'Write', 'WriteLines', 'ReadDelivered', 'ReadTimeout', 'CloseSelf'},
+    'fd': {'Send', 'SendLine', 'Write', 'WriteLines', 'ReadDelivered', 'ReadTimeout', 'HalfCloseEof', 'PeerGone', 'CloseSelf'},
+    'popen': {'Send', 'SendLine', 'Write', 'WriteLines', 'SendEof', 'ReadDelivered', 'ReadTimeout', 'HalfCloseEof', 'PeerGone'},
+    'socket': {'Send', 'SendLine', 'Write', 'WriteLines', 'ReadDelivered', 'ReadTimeout', 'HalfCloseEof', 'PeerGone', 'CloseSelf', 'Stalled'},
+}
+NEEDED_AWAIT = {'Send', 'SendLine', 'Write', 'WriteLines', 'ReadDelivered', 'ReadTimeout', 'ARead', 'ACancel', 'ATimeout', 'Arrive'}
+AWAIT_TRANSPORTS = ('pty', 'fd', 'socket')       # (PopenSpawn has no descriptor an asyncio transport could be put on)
 BUGS = {'sep2': {'PeerGotExactly', 'LogSendExact', 'LogAllInterleaved', 'ReturnValue'},
         'logencoded': {'LogTypeIsApiType'},
         'noflush': {'EveryWriteFlushed'},
         'ctlnotsent': {'PeerGotExactly', 'ReturnValue'},
         'readnotlogged': {'LogReadExact', 'LogAllInterleaved'}}
+# mutants of the environment configurations: (transport, part) and the invariants that may report them
+ENV_BUGS = {'tmoleak': ('socket', 'life', {'NoSpuriousFailure'}),            # a read ending in TIMEOUT / EOF leaves the socket non-blocking
+            'eofclosesstdin': ('popen', 'life', {'NoSpuriousFailure'}),      # EOF of the child's output closes the sending side too
+            'logafterwrite': ('socket', 'life', {'FailedSendLogged'}),       # the send log is written after the write
+            'latenotlogged': ('fd', 'await', {'LogReadExact', 'LogAllInterleaved'})}   # output arriving between two awaited calls is not logged
+SEND_OPS = {'Send': 'send', 'SendLine': 'sendline', 'Write': 'write', 'WriteLines': 'writelines'}
+ENV_OPS = {'ReadTimeout', 'HalfCloseEof', 'PeerGone', 'CloseSelf', 'Stalled', 'ARead', 'ACancel', 'ATimeout', 'Arrive'}
 OWNER = {'C08': ('C08:',), 'C11': ('C11:',)}
 
 
@@ -137,7 +153,7 @@ def _path_to_uncovered(g, start, uncovered):
 def slim(st):
     """the part of a TLC state the replay compares with"""
     return {k: st[k] for k in ('mode', 'logcfg', 'phase', 'peerGot', 'userGot', 'logSend', 'logRead', 'logAll', 'writes',
-                               'flushes', 'delivered', 'ret', 'encBom', 'peerOpen')}
+                               'flushes', 'delivered', 'ret', 'encBom', 'peerOpen', 'link', 'outOpen', 'sockTmo', 'rd', 'kq', 'pend')}
 
 
 # ---------------------------------------------------------------- instantiation of TLC states
@@ -198,9 +214,14 @@ class Inst(object):
         self.rig = rig
         self.ctl = {}               # n -> concrete control name for the class used at op n
         self.T = api_type(mode)
+        self.big_n = BIG_N
+        self.o_seq = None           # child output in flight (oldest first) + this step's: the 'o' items of a state are its tail
 
     def arg(self, it):              # <<"t", n, j, p>>
-        return payload(it[3], self.mode, self.tagof(it[1]) * 10 + it[2])
+        return payload(it[3], self.mode, self.tagof(it[1]) * 10 + it[2], self.big_n)
+
+    def P(self, cls, j=1):          # the j-th argument (class cls) of this step's call
+        return payload(cls, self.mode, self.tagof(1) * 10 + j, self.big_n)
 
     def ctl_byte(self, it):         # <<"c", n, name>>
         name = it[2]
@@ -252,9 +273,16 @@ class Inst(object):
         """the concatenated value a log must have received for these entries (API string type)"""
         T = self.T
         out = []
+        n_o = sum(1 for e in entries if e['it'][0] == 'o')
+        o_texts = list(self.o_seq[len(self.o_seq) - n_o:]) if (self.o_seq is not None and n_o) else None
+        if o_texts is not None and len(o_texts) != n_o:
+            raise Machinery('the state holds %d pieces of child output, the harness knows of %d' % (n_o, len(o_texts)))
         for e in entries:
             it = e['it']
             k = it[0]
+            if k == 'o' and o_texts is not None:
+                out.append(o_texts.pop(0))
+                continue
             if k == 't':
                 v = api(self.arg(it), self.mode)
             elif k == 'sep':
@@ -283,7 +311,7 @@ def short(v, n=120):
     return r if len(r) <= n else '%s...(%d)...%s' % (r[:n // 2], len(v), r[-n // 2:])
 
 
-def check_logs(rig, inst, succ, phase, add, with_end=True, snapshot=None):
+def check_logs(rig, inst, succ, phase, add, with_end=True, snapshot=None, granularity=True):
     """the three logs against logAll / logRead / logSend of the TLC state"""
     T = inst.T
     for name, var, clause in (('send', 'logSend', 'C11:logfile_send'), ('read', 'logRead', 'C11:logfile_read'),
@@ -305,31 +333,65 @@ def check_logs(rig, inst, succ, phase, add, with_end=True, snapshot=None):
             add('C11:interact' if phase == 'interact' else clause, {'log': name, 'got': short(got), 'want': short(want)})
         if flushes != len(writes) or maxun > 1:
             add('C11:flush', {'log': name, 'writes': len(writes), 'flushes': flushes, 'max_unflushed_writes': maxun})
-        if len(writes) != succ['writes'][name] and got == want and not succ['delivered'] and not succ['userGot']:
+        if granularity and len(writes) != succ['writes'][name] and got == want and not succ['delivered'] and not succ['userGot']:
             add('drift:write-granularity', {'log': name, 'writes': len(writes), 'model': succ['writes'][name]})
 
 
-def exec_step(rig, label, succ, tag, ctlname, tamper=None):
+def big_size(rig, tag):
+    """the concrete size of the payload class 'big' in the environment walks: always larger than what the transport
+    buffers (pty 4 KiB, pipe 64 KiB, socketpair ~210 KiB), up to several MB"""
+    if rig.transport == 'pty':
+        return (20000, 70000, 20000, 300000)[tag % 4]
+    if rig.sock is None:
+        return (100000, 300000, 100000, 100000, 1000000)[tag % 5]
+    return (300000, 300000, 1000000, 300000, 300000, 300000, 4000000)[tag % 7]
+
+
+def exec_step(rig, label, succ, tag, ctlname, tamper=None, env=None):
     """perform the operation of one transition and compare with the successor state"""
     name, args = stategraph.parse_action(label)
     mode = rig.mode
     inst = Inst(mode, lambda n: tag, rig)
+    if env:
+        inst.big_n = big_size(rig, tag)
     c = rig.child
+    T = inst.T
     found = []
 
     def add(clause, detail):
         found.append((clause, dict(detail, op=label)))
     rig.reset_logs()
     ret, exc, feeder, before = None, None, None, None
+    fifo = list(rig.fifo)                       # child output in flight before this step (API type, oldest first)
+    new_text = None                             # child output written in this step (without the end marker)
+    must_fail = succ['ret']['k'] == 'raised'    # the model says the call fails
+    part = [it for it in succ['peerGot'] if it[0] == 'part']
+    stalled = name == 'Stalled'
+    sop = SEND_OPS.get(name) or (args[0] if stalled else None)
+    is_big = False
+    never = NEVER if T is str else NEVER.encode()
+    sock_tmo = lambda: ('timeout', rig.sock.gettimeout()) if (rig.sock is not None and rig.link == 'up') else None
+    tmo0 = sock_tmo()
     try:
-        if name == 'Send':
-            ret = c.send(payload(args[0], mode, tag * 10 + 1))
-        elif name == 'SendLine':
-            ret = c.sendline(payload(args[0], mode, tag * 10 + 1))
-        elif name == 'Write':
-            ret = c.write(payload(args[0], mode, tag * 10 + 1))
-        elif name == 'WriteLines':
-            ret = c.writelines([payload(p, mode, tag * 10 + j + 1) for j, p in enumerate(args[0])])
+        if sop is not None:
+            if name == 'WriteLines':
+                classes = list(args[0])
+            elif stalled:
+                classes = ['ascii', args[1]] if sop == 'writelines' else [args[1]]
+            else:
+                classes = [args[0]]
+            vals = [inst.P(p, j + 1) for j, p in enumerate(classes)]
+            is_big = 'big' in classes
+            call = (lambda: getattr(c, sop)(vals)) if sop == 'writelines' else (lambda: getattr(c, sop)(vals[0]))
+            if stalled:
+                # the user's socket timeout is short and the peer does not read: sendall() gives up part-way
+                rig.sock.settimeout(STALL_TIMEOUT)
+                tmo0 = sock_tmo()
+                ret = rig.gated(call, stalled=True)
+            elif env and is_big and rig.sock is not None:
+                ret = rig.gated(call)           # the peer reads once the sender's buffer is full
+            else:
+                ret = call()
         elif name == 'SendControl':
             inst.ctl[1] = ctlname
             ret = c.sendcontrol(ctlname)
@@ -338,13 +400,14 @@ def exec_step(rig, label, succ, tag, ctlname, tamper=None):
         elif name == 'SendIntr':
             ret = c.sendintr()
         elif name == 'ReadDelivered':
-            it = succ['delivered'][0]
+            it = succ['delivered'][-1]
+            new_text = inst.logged([{'it': it}], with_end=False)
             feeder = rig.child_output(rig.out_prefix() + inst.out_bytes(it))
             end = inst.end(it)
             # LogReadExact at an intermediate point: a read that asks for less than the transport already holds
             # delivers only that much - and only that much may be in the read log (logfile_read, logfile)
             partial = inst.T()
-            if tag % 3 == 0 and feeder is None:
+            if tag % 3 == 0 and feeder is None and not fifo:
                 lg = rig.logs.get('read')
                 joined = lambda: inst.T().join(w for w in lg.writes if isinstance(w, inst.T)) if lg is not None else None
                 log0 = joined()
@@ -357,8 +420,70 @@ def exec_step(rig, label, succ, tag, ctlname, tamper=None):
                 if lg is not None and joined()[len(log0):] != partial:
                     add('C11:logfile_read', {'what': 'after a read that asked for 3 characters the read log does not hold exactly what that read delivered',
                                              'delivered_by_this_read': short(partial), 'logged_since': short(joined()[len(log0):])})
-            c.expect_exact(end if inst.T is str else end.encode(), timeout=30)
+            # (the environment walks vary the timeout: a number, None - the text is on its way -, the instance default)
+            c.expect_exact(end if inst.T is str else end.encode(), timeout=(30, None, -1)[tag % 3] if env else 30)
             before = partial + c.before
+        elif name == 'ReadTimeout':
+            # a blocking read that finds nothing: the TIMEOUT pattern (no exception reaches the caller) / read_nonblocking
+            t = 0 if args[0] == 'zero' else 0.05
+            if rig.transport != 'popen' and tag % 2:
+                try:
+                    got = c.read_nonblocking(1, t)
+                    add('other:read-timeout', {'what': 'read_nonblocking returned although nothing was written', 'got': short(got)})
+                except pexpect.TIMEOUT:
+                    pass
+            else:
+                idx = c.expect([pexpect.TIMEOUT, never], timeout=t)
+                if idx != 0:
+                    add('other:read-timeout', {'what': 'expect([TIMEOUT, ..]) returned %r although nothing was written' % (idx,)})
+        elif name == 'HalfCloseEof':
+            rig.half_close()
+            c.expect(pexpect.EOF, timeout=30)
+            before = c.before
+            if rig.transport == 'popen':
+                # the reader thread has delivered EOF; let it finish whatever it does after that
+                c._read_thread.join(20)
+                if c._read_thread.is_alive():
+                    raise Machinery('PopenSpawn reader thread still running after EOF')
+        elif name == 'PeerGone':
+            rig.peer_gone()
+        elif name == 'CloseSelf':
+            rig.close_self()
+        elif name == 'ARead':
+            it = succ['delivered'][-1]
+            new_text = inst.logged([{'it': it}], with_end=False)
+            end = inst.end(it)
+            rig.feed(rig.out_prefix() + inst.out_bytes(it))
+            rig.arun(c.expect_exact(end if T is str else end.encode(), timeout=30, async_=True))
+            before = c.before
+        elif name == 'ACancel':
+            async def cancelled():
+                if args[0] == 'cancel':
+                    task = asyncio.ensure_future(c.expect_exact(never, timeout=30, async_=True))
+                    await rig.settle()          # the call is waiting, what was readable has been taken in
+                    task.cancel()
+                    try:
+                        await task
+                    except asyncio.CancelledError:
+                        return
+                    raise Machinery('the cancelled call returned')
+                try:
+                    await asyncio.wait_for(c.expect_exact(never, timeout=30, async_=True), 2.0)
+                except asyncio.TimeoutError:
+                    return
+                raise Machinery('the call inside asyncio.wait_for returned')
+            rig.arun(cancelled())
+        elif name == 'ATimeout':
+            try:
+                rig.arun(c.expect_exact(never, timeout=1.5, async_=True))
+                add('other:await-timeout', {'what': 'the awaited call returned although the text never came'})
+            except pexpect.TIMEOUT:
+                pass
+        elif name == 'Arrive':
+            it = ['o', 1, args[0]]
+            new_text = inst.logged([{'it': it}], with_end=False)
+            rig.feed(rig.out_prefix() + inst.out_bytes(it, with_end=False))
+            rig.arun(rig.settle())
         else:
             raise ValueError(label)
     except (pexpect.TIMEOUT, pexpect.EOF) as e:
@@ -367,12 +492,26 @@ def exec_step(rig, label, succ, tag, ctlname, tamper=None):
         raise
     except Exception as e:
         exc = e
+    tmo1 = sock_tmo()
+    if stalled:
+        rig.sock.settimeout(rig.sock_timeout0)
+        rig.release()
     if feeder is not None:
         if exc is not None:
             rig.discard_input(feeder)
         feeder.join(30)
         if feeder.is_alive():
             raise Machinery('the thread playing the child\'s output is stuck')
+    if tmo0 is not None and tmo1 is not None and tmo1 != tmo0:
+        # stated by C06 ("a socket's own timeout setting is left as it was found"); here it is the precondition of the next sends
+        add('other:socket-timeout', {'what': 'the call changed the socket\'s own timeout', 'before': tmo0[1], 'after': tmo1[1], 'kind': rig.kind})
+    # child output: what is in flight after this step
+    has_new = new_text is not None
+    flight = fifo + ([new_text] if has_new else [])
+    n_left = len(succ['pend']) + len(succ['kq'])
+    rig.fifo = flight[len(flight) - n_left:] if n_left else []
+    if env or has_new:
+        inst.o_seq = fifo + ([new_text + (api(inst.end(['o', 1, '']), mode) if name in ('ReadDelivered', 'ARead') else T())] if has_new else [])
     if tamper:
         tamper(succ)
     # what the peer received
@@ -388,13 +527,41 @@ def exec_step(rig, label, succ, tag, ctlname, tamper=None):
         seg = rig.barrier()
     else:
         seg = b''
-    want_peer = inst.peer(succ['peerGot'])
     is_ctl = name in ('SendControl', 'SendEof', 'SendIntr')
+    if must_fail:
+        # a send-family call that the environment makes fail: the exception goes to the caller; of the send() that failed
+        # a proper prefix may have reached the peer; the send log holds every send() that was attempted, completely
+        if exc is None:
+            add('drift:expected-failure', {'what': 'the model says this call fails', 'returned': ret})
+            return found
+        full = inst.peer([it for it in succ['peerGot'] if it[0] != 'part'])
+        if not seg.startswith(full):
+            add('C08:peer-bytes', {'what': 'a call that failed part-way: the peer did not get the earlier pieces', 'got': short(seg), 'want_prefix': short(full)})
+        elif part:
+            piece = inst.peer(part[0][1])
+            rest = seg[len(full):]
+            if not piece.startswith(rest) or len(rest) == len(piece):
+                add('C08:peer-bytes', {'what': 'a call that failed part-way: the peer got something else than a proper prefix of the piece',
+                                       'got': short(rest), 'piece': short(piece), 'got_len': len(rest), 'piece_len': len(piece), 'exc': _exc(exc)})
+            elif not rest:
+                add('drift:nothing-sent', {'what': 'nothing of the piece reached the stalled peer', 'exc': _exc(exc)})
+        elif seg != full:
+            add('C08:peer-bytes', {'got': short(seg), 'want': short(full), 'what': 'a call that failed wrote to the peer', 'exc': _exc(exc)})
+        check_logs(rig, inst, succ, 'normal', add, granularity=False)
+        for f in found:
+            f[1].setdefault('exc', _exc(exc))
+            f[1].setdefault('peer_got_len', len(seg))
+        return found
+    want_peer = inst.peer(succ['peerGot'])
     if exc is not None:
-        if name == 'ReadDelivered':
+        if name in ('ReadDelivered', 'ARead'):
             add('C11:logfile_read', {'what': 'the read that should have delivered the child\'s output raised', 'exc': _exc(exc)})
+        elif sop is not None or is_ctl:
+            add('C08:control-byte' if is_ctl else 'C08:peer-bytes', {
+                'what': 'the call raised although the peer is there and reads', 'exc': _exc(exc), 'peer_got_len': len(seg), 'want_len': len(want_peer),
+                'peer_got_a_proper_prefix': bool(len(seg) < len(want_peer) and want_peer.startswith(seg)), 'got': short(seg), 'kind': rig.kind})
         else:
-            add('C08:control-byte' if is_ctl else 'C08:peer-bytes', {'what': 'the call raised', 'exc': _exc(exc)})
+            add('other:environment-step', {'what': 'the step raised', 'exc': _exc(exc)})
         return found
     if seg != want_peer:
         add('C08:control-byte' if is_ctl else 'C08:peer-bytes', {'got': short(seg), 'want': short(want_peer),
@@ -405,12 +572,20 @@ def exec_step(rig, label, succ, tag, ctlname, tamper=None):
             add('C08:return-value', {'returned': ret, 'bytes_the_model_says': want_ret, 'bytes_the_peer_got': len(seg)})
     elif name == 'SendControl' and ret != 1:
         add('drift:sendcontrol-return', {'returned': ret})
-    if name == 'ReadDelivered':
-        it = succ['delivered'][0]
-        want_before = inst.logged([{'it': it}], with_end=False)
+    if before is not None:
+        # what the call handed to the caller: the text that was pending, then this call's
+        nd = len(succ['delivered'])
+        texts = (fifo + ([new_text] if has_new else []))
+        want_before = T().join(texts[len(texts) - nd:]) if nd else T()
         if before != want_before:
             add('other:delivered-text', {'got': short(before), 'want': short(want_before)})
-    check_logs(rig, inst, succ, 'normal', add)
+    if env == 'await' and name in ('Arrive', 'ACancel', 'ATimeout', 'ARead', 'ReadTimeout', 'ReadDelivered'):
+        # the text the object holds for the next call (what matching will be given first)
+        held = c.buffer
+        want_held = T().join(rig.fifo[:len(succ['pend'])])
+        if held != want_held:
+            add('other:pending-text', {'got': short(held), 'want': short(want_held)})
+    check_logs(rig, inst, succ, 'normal', add, granularity=name not in ENV_OPS and not env)
     return found
 
 
@@ -487,7 +662,8 @@ def run_walk(job):
     out = {'fails': [], 'steps': 0, 'ctl': [], 'machinery': None, 'drift': 0, 'other': [], 'kind': None}
     rig = None
     try:
-        rig = Rig(transport, init['mode'], init['logcfg'], workdir, variant=widx)
+        env = job.get('env')
+        rig = Rig(transport, init['mode'], init['logcfg'], workdir, variant=widx, **job.get('rig', {}))
         out['kind'] = job['kind'] = rig.kind
         i = 0
         nfail = 0
@@ -509,7 +685,7 @@ def run_walk(job):
                     pool = LETTERS if 'letter' in label else PUNCT
                     ctl = pool[(widx * 5 + i) % len(pool)]
                     out['ctl'].append(ctl)
-                found = exec_step(rig, label, succ, i + 1, ctl)
+                found = exec_step(rig, label, succ, i + 1, ctl, env=env)
                 out['steps'] += 1
                 at = i
                 i += 1
